@@ -264,6 +264,25 @@ func c11History(c *mon.Ctx, r *mon.Rand) {
 	desc := func() interface{} {
 		return map[string]interface{}{"prefix": prefix, "root_tags": rootTags, "programs": progs, "ops": ops}
 	}
+	names := []string{"a", "b", pool.names[0], pool.names[1]}
+	// Two different (scope, metric name) pairs can concatenate to the same full
+	// name (prefix "p" + "." + "." and prefix "p." + "." + ""): with equal tags
+	// the two metrics then have one name+tags identity and no snapshot can hold
+	// "one entry per metric". Such histories are outside what C11 can state.
+	owners := map[string]string{}
+	for _, sc := range scopes {
+		for _, n := range names {
+			for _, suffix := range []string{"", "h"} {
+				k := mon.IdentKey(rc.metricName(sc.id, n+suffix), sc.id.Tags)
+				me := sc.id.key() + "|" + n + suffix
+				if prev, ok := owners[k]; ok && prev != me {
+					c.Class("skipped-two-metrics-with-one-full-name", 1)
+					return
+				}
+				owners[k] = me
+			}
+		}
+	}
 	c.Eval(1)
 	c.Distinct(mon.Hash64(prefix, fmt.Sprint(rootTags), fmt.Sprint(progs), fmt.Sprint(r.U64())))
 	get := func(kind string, s *c11Scope, name string) *c11Metric {
@@ -283,7 +302,6 @@ func c11History(c *mon.Ctx, r *mon.Rand) {
 	}
 	var olds []frozen
 	nops := r.Range(5, 60)
-	names := []string{"a", "b", pool.names[0], pool.names[1]}
 	panicked := c.Guard("panic", desc, func() {
 		for i := 0; i < nops; i++ {
 			s := scopes[r.Intn(len(scopes))]
